@@ -8,6 +8,7 @@ import hashlib
 import os
 
 from .common import HASHLIB_OF
+from .probe import staging_name
 
 
 class Layout:
@@ -150,7 +151,7 @@ def abstract(root, layout, known_pids=(), known_meta=()):
         if rel in ("hashstore.yaml", "python_client.log"):
             a.other[rel] = data
             continue
-        if len(parts) >= 2 and parts[1] == "tmp" and parts[0] in ("objects", "metadata", "refs"):
+        if len(parts) >= 3 and parts[0] in ("objects", "metadata", "refs") and staging_name(parts[1]):
             a.residue.append(rel)
             continue
         if base.endswith("_delete") or "_delete." in base:
